@@ -1156,15 +1156,17 @@ impl FromIterator<char> for LeanString {
         let iter = iter.into_iter();
 
         let (lower_bound, _) = iter.size_hint();
-        let mut repr = match Repr::with_capacity(lower_bound) {
+        // Wrap the buffer in a `LeanString` right away, so that it is released if `iter` (or a
+        // later allocation) panics.
+        let mut buf = LeanString(match Repr::with_capacity(lower_bound) {
             Ok(buf) => buf,
             Err(_) => Repr::new(), // Ignore the error and hope that the lower_bound is incorrect.
-        };
+        });
 
         for ch in iter {
-            repr.push_str(ch.encode_utf8(&mut [0; 4])).unwrap_with_msg();
+            buf.push(ch);
         }
-        LeanString(repr)
+        buf
     }
 }
 
